@@ -56,6 +56,7 @@ class Ctx(object):
         self.sigs = set()
         self.sig_overflow = 0
         self.trivial = 0
+        self.distinct_by_construction = 0
         self.classes = {}
         self.monitors = {}
         self.violations = []
@@ -106,6 +107,13 @@ class Ctx(object):
         elif sig not in self.sigs:
             self.sig_overflow += 1
 
+    def enumerated(self, n, trivial=0):
+        """n cases that are pairwise distinct by construction (enumeration index),
+        counted without storing signatures."""
+        self.evaluations += n
+        self.trivial += trivial
+        self.distinct_by_construction += n - trivial
+
     def sample(self, case, force=False):
         if len(self.samples) < SAMPLE_CAP or force:
             self.samples.append(jsonable(case))
@@ -128,7 +136,7 @@ class Ctx(object):
         known_findings.json by the runner) or None when no classifier explains
         the witness."""
         self.violation_count += 1
-        self.monitor(monitor, fired=True, n=0)
+        self.monitors.setdefault(monitor, {"evals": 0, "fired": 0})
         k = (monitor, clause, key)
         n = self._vkeys.get(k, 0)
         self._vkeys[k] = n + 1
@@ -160,6 +168,7 @@ class Ctx(object):
             "hashseed": self.hashseed,
             "evaluations": self.evaluations,
             "trivial": self.trivial,
+            "distinct_by_construction": self.distinct_by_construction,
             "sigs": sorted(self.sigs),
             "sig_overflow": self.sig_overflow,
             "classes": self.classes,
